@@ -16,6 +16,7 @@
 from __future__ import annotations
 
 import ast
+import re
 from fractions import Fraction
 from typing import Any, Dict, List, Optional, Tuple
 
@@ -154,7 +155,12 @@ def run(ctx: Any, prog: Program) -> None:
     ctx.rule('C04.A4', 'operator dispatch computes the documented value and class for every operand pair and operator form', floor=40)
     ctx.rule('C04.A5', 'Euler extraction atan2 arguments are (k sin x, k cos x) for the extracted angle; gimbal threshold 0.001', floor=6)
     ctx.rule('C04.A6', 'Cython siblings agree with the Python formulas', floor=25)
+    ctx.rule('C04.A8', 'inverse(): the pivot chosen in each column is the entry of largest magnitude, so an invertible matrix never fails the final threshold test because of pivot choice', floor=1)
+    ctx.rule('C04.A7', 'in-place kernels are alias safe, or are only called with a fresh receiver (m @= m computes m @ m)', floor=4)
 
+    a8_pivoting(ctx, mt)
+    # A7 first: it needs no algebra, and its definite findings must be reported even when a later step declines
+    a7_alias_safety(ctx, prog, mt, PyxFile(prog, '_math.pyx'))
     form, vform = extract_forms(prog)
     # ---- A3 ----------------------------------------------------------------------------------------
     std = standard_product()
@@ -360,6 +366,238 @@ def run(ctx: Any, prog: Program) -> None:
               func='_mat_to_angle', text='atan2 argument pairs equal')
 
 
+def a8_pivoting(ctx: Any, mt: Any) -> None:
+    """inverse() rejects a matrix whose reduced diagonal has an entry of magnitude <= 1e-5.  With partial pivoting (largest magnitude in the
+    column) that only happens for (nearly) singular input.  Any weaker choice - the first non-zero entry, the first entry above some other
+    bound - can pick a tiny pivot although a good one exists: a rotation with cos(angle) = 6e-17 (90 degrees in floats) or 1e-6 (an exact
+    rotation) is then reported as having no inverse, although its inverse is its transpose."""
+    inv = mt.func('MatrixBase.inverse')
+    sel = [l for l in ast.walk(inv) if isinstance(l, ast.For) and any(isinstance(a, ast.Assign) and any(dotted(t) == 'pivrow' for t in a.targets) and isinstance(a.value, ast.Name) and a.value.id == dotted(l.target)
+                                                                     for a in ast.walk(l))]
+    sel = [l for l in sel if not any(o is not l and any(x is o for x in ast.walk(l)) for o in sel)]      # innermost only
+    if len(sel) != 1:
+        ctx.shape('C04.A8', False, mt, inv, 'pivot selection loop (`pivrow = <loop variable>`) not found in inverse()', func='MatrixBase.inverse', text='pivot selection')
+        return
+    lp = sel[0]
+    guards = [i for i in ast.walk(lp) if isinstance(i, ast.If) and any(isinstance(a, ast.Assign) and any(dotted(t) == 'pivrow' for t in a.targets) for a in i.body)]
+    if len(guards) != 1:
+        ctx.shape('C04.A8', False, mt, lp, 'pivot selection test not recognised', func='MatrixBase.inverse', text='pivot selection')
+        return
+    g = guards[0]
+    t = g.test
+    defs = {tt.id: a.value for a in ast.walk(lp) if isinstance(a, (ast.Assign, ast.AnnAssign)) and a.value is not None for tt in (a.targets if isinstance(a, ast.Assign) else [a.target]) if isinstance(tt, ast.Name)}
+
+    def is_abs(e: ast.AST) -> bool:
+        e = defs.get(e.id, e) if isinstance(e, ast.Name) else e
+        return isinstance(e, ast.Call) and dotted(e.func) in ('abs', 'math.fabs')
+    running_max = (isinstance(t, ast.Compare) and len(t.ops) == 1 and isinstance(t.ops[0], (ast.Gt, ast.GtE)) and is_abs(t.left) and isinstance(t.comparators[0], ast.Name)
+                   and any(isinstance(a, ast.Assign) and any(dotted(tt) == t.comparators[0].id for tt in a.targets) and ast.unparse(a.value) == ast.unparse(t.left) for a in g.body)
+                   and not any(isinstance(b, ast.Break) for b in ast.walk(g)))
+    if running_max:
+        ctx.check('C04.A8', True, mt, g, 'running maximum of |entry|', func='MatrixBase.inverse', text='pivot selection')
+        return
+    first_hit = any(isinstance(b, ast.Break) for b in g.body) or not any(isinstance(c, ast.Compare) and any(isinstance(x, ast.Name) and x.id not in (dotted(lp.target),) and x.id in defs or False for x in ast.walk(c)) for c in [t])
+    nonzero_test = (isinstance(t, ast.Compare) and len(t.ops) == 1 and isinstance(t.ops[0], (ast.NotEq, ast.Gt)) and isinstance(t.comparators[0], ast.Constant)) or isinstance(t, (ast.Subscript, ast.Name, ast.Call))
+    if nonzero_test and first_hit:
+        ctx.check('C04.A8', False, mt, g, f'inverse() takes the first row whose entry satisfies `{ast.unparse(t)}` as pivot instead of the entry of largest magnitude: a tiny but non-zero entry (float noise such as cos(90 deg) = 6e-17, '
+                  'or a genuinely small cosine) is accepted although a usable pivot exists below it, and the final `abs(v) <= 0.00001` test then rejects a perfectly invertible rotation', func='MatrixBase.inverse', text='pivot selection')
+        return
+    ctx.shape('C04.A8', False, mt, g, f'pivot selection test `{ast.unparse(t)}` is not an enumerated form', func='MatrixBase.inverse', text='pivot selection')
+
+
+def _alias_hazard(fn: ast.AST, params: List[str]) -> Optional[Tuple[str, str, str, ast.AST]]:
+    """First (written object, read object, field, node) such that on some path a field of one parameter is written and later the same
+    field is read through a different parameter.  Branches are followed separately (a write in one arm is not seen by the other)."""
+    found: List[Tuple[str, str, str, ast.AST]] = []
+
+    def reads(e: Optional[ast.AST], written: Dict[str, set]) -> None:
+        if e is None:
+            return
+        for x in ast.walk(e):
+            if isinstance(x, ast.Attribute) and isinstance(x.value, ast.Name) and isinstance(x.ctx, ast.Load) and x.value.id in params:
+                for tgt, fs in written.items():
+                    if tgt != x.value.id and x.attr in fs:
+                        found.append((tgt, x.value.id, x.attr, x))
+
+    def writes(t: ast.AST, written: Dict[str, set]) -> None:
+        for x in ([t] if not isinstance(t, (ast.Tuple, ast.List)) else t.elts):
+            if isinstance(x, (ast.Tuple, ast.List)):
+                writes(x, written)
+            elif isinstance(x, ast.Attribute) and isinstance(x.value, ast.Name) and x.value.id in params:
+                written.setdefault(x.value.id, set()).add(x.attr)
+
+    def merge(a: Dict[str, set], b: Dict[str, set]) -> Dict[str, set]:
+        return {k: set(a.get(k, ())) | set(b.get(k, ())) for k in set(a) | set(b)}
+
+    def block(stmts: List[ast.stmt], written: Dict[str, set]) -> Dict[str, set]:
+        for st in stmts:
+            if isinstance(st, ast.Assign):
+                reads(st.value, written)
+                for t in st.targets:
+                    writes(t, written)
+            elif isinstance(st, ast.AugAssign):
+                reads(st.value, written)
+                writes(st.target, written)
+            elif isinstance(st, ast.AnnAssign):
+                reads(st.value, written)
+                if st.value is not None:
+                    writes(st.target, written)
+            elif isinstance(st, ast.If):
+                reads(st.test, written)
+                w1 = block(st.body, {k: set(v) for k, v in written.items()})
+                w2 = block(st.orelse, {k: set(v) for k, v in written.items()})
+                written = merge(w1, w2)
+            elif isinstance(st, (ast.For, ast.While)):
+                for _ in range(2):
+                    reads(st.iter if isinstance(st, ast.For) else st.test, written)
+                    written = merge(written, block(st.body, {k: set(v) for k, v in written.items()}))
+                written = block(st.orelse, written)
+            elif isinstance(st, ast.Try):
+                written = block(st.body, written)
+                for h in st.handlers:
+                    written = merge(written, block(h.body, {k: set(v) for k, v in written.items()}))
+                written = block(st.orelse, written)
+                written = block(st.finalbody, written)
+            elif isinstance(st, ast.With):
+                written = block(st.body, written)
+            elif isinstance(st, (ast.Return, ast.Expr)):
+                reads(st.value, written)
+        return written
+    block(list(getattr(fn, 'body', [])), {})
+    return found[0] if found else None
+
+
+def _stale_self_read(fn: ast.AST, me: str) -> Optional[Tuple[str, str, ast.AST]]:
+    """In an in-place operator the new components are functions of the OLD components.  First (field being computed, field read, node)
+    where, on one path, `me.f` has been assigned and is then read while computing a different field `me.g` of the same object."""
+    found: List[Tuple[str, str, ast.AST]] = []
+
+    def fields_read(e: Optional[ast.AST]) -> List[ast.Attribute]:
+        return [x for x in ast.walk(e) if isinstance(x, ast.Attribute) and isinstance(x.value, ast.Name) and x.value.id == me and isinstance(x.ctx, ast.Load)] if e is not None else []
+
+    def tfields(t: ast.AST) -> List[str]:
+        out: List[str] = []
+        for x in ([t] if not isinstance(t, (ast.Tuple, ast.List)) else t.elts):
+            if isinstance(x, (ast.Tuple, ast.List)):
+                out += tfields(x)
+            elif isinstance(x, ast.Attribute) and isinstance(x.value, ast.Name) and x.value.id == me:
+                out.append(x.attr)
+        return out
+
+    def block(stmts: List[ast.stmt], written: set) -> set:
+        for st in stmts:
+            if isinstance(st, (ast.Assign, ast.AugAssign, ast.AnnAssign)) and getattr(st, 'value', None) is not None:
+                tg = [f for t in (st.targets if isinstance(st, ast.Assign) else [st.target]) for f in tfields(t)]
+                if tg:
+                    for r in fields_read(st.value):
+                        if r.attr in written and any(r.attr != g for g in tg):
+                            found.append((next(g for g in tg if g != r.attr), r.attr, r))
+                    written = written | set(tg)
+            elif isinstance(st, ast.If):
+                written = block(st.body, set(written)) | block(st.orelse, set(written))
+            elif isinstance(st, (ast.For, ast.While)):
+                for _ in range(2):
+                    written = written | block(st.body, set(written))
+            elif isinstance(st, ast.Try):
+                written = block(st.body, written)
+                for h in st.handlers:
+                    written = written | block(h.body, set(written))
+                written = block(st.finalbody, block(st.orelse, written))
+            elif isinstance(st, ast.With):
+                written = block(st.body, written)
+        return written
+    block(list(getattr(fn, 'body', [])), set())
+    return found[0] if found else None
+
+
+def a7_alias_safety(ctx: Any, prog: Program, mt: Any, pyx: Any) -> None:
+    """m @= m must equal m @ m: a kernel that writes a field of one parameter and later reads the same field through another parameter is
+    only correct when the two can never be the same object.  Such a kernel may be called with a receiver created in the caller (a copy),
+    never with two of the caller's own arguments."""
+    hazards: Dict[str, Tuple[str, str, str, ast.AST]] = {}
+    n_fn = 0
+    for qual, fns in mt.all_funcs().items():
+        for fn in fns:
+            params = [a.arg for a in fn.args.args]
+            if len(params) < 2:
+                continue
+            n_fn += 1
+            hz = _alias_hazard(fn, params)
+            if hz is not None and qual not in hazards:
+                hazards[qual] = hz
+    for qual, (tgt, src, field, node) in sorted(hazards.items()):
+        name = qual.split('.')[-1]
+        fn = mt.func(qual)
+        params = [a.arg for a in fn.args.args]
+        public = not name.startswith('_') or (name.startswith('__') and name.endswith('__'))
+        if public:
+            ctx.check('C04.A7', False, mt, node, f'{qual} writes {tgt}.{field} and afterwards reads {src}.{field}: when both operands are the same object (x @= x) the result is computed from half-updated values',
+                      func=qual, text=f'{qual}: {src}.{field} read after {tgt}.{field} written')
+            continue
+        # private kernel: every call site must pass a receiver created in the caller
+        sites = 0
+        for cq, cfns in mt.all_funcs().items():
+            for cfn in cfns:
+                cparams = {a.arg for a in cfn.args.args}
+                fresh = {t.id for n in ast.walk(cfn) if isinstance(n, ast.Assign) and isinstance(n.value, ast.Call) for t in n.targets if isinstance(t, ast.Name)} - cparams
+                for c in ast.walk(cfn):
+                    if isinstance(c, ast.Call) and isinstance(c.func, ast.Attribute) and c.func.attr == name and isinstance(c.func.value, ast.Name) and len(c.args) == len(params) - 1:
+                        actual = dict(zip(params, [c.func.value] + list(c.args)))
+                        a_t, a_s = actual.get(tgt), actual.get(src)
+                        sites += 1
+                        same = isinstance(a_s, ast.Name) and isinstance(a_t, ast.Name) and a_s.id == a_t.id
+                        t_fresh = isinstance(a_t, ast.Name) and a_t.id in fresh
+                        s_fresh = isinstance(a_s, ast.Call) or (isinstance(a_s, ast.Name) and a_s.id in fresh)
+                        ok = not same and (t_fresh or s_fresh)
+                        ctx.check('C04.A7', ok, mt, c, f'{cq} calls {name}() with `{ast.unparse(a_t) if a_t else "?"}` as the object being written and `{ast.unparse(a_s) if a_s else "?"}` as the one being read; {qual} reads '
+                                  f'{src}.{field} after writing {tgt}.{field}, so if both are the same object (x @= x) the result is wrong - pass a fresh copy or make the kernel compute before it assigns',
+                                  func=cq, text=f'{cq}: {name}({ast.unparse(a_s) if a_s else "?"}) on {ast.unparse(a_t) if a_t else "?"}')
+        ctx.shape('C04.A7', sites > 0, mt, fn, f'alias-unsafe kernel {qual} has no recognisable call site', func=qual, text=f'{qual} call sites')
+    n_ip = 0
+    for qual, fns in mt.all_funcs().items():
+        name = qual.split('.')[-1]
+        if not (re.fullmatch(r'__i[a-z]+__', name) and name not in ('__init__', '__iter__', '__index__', '__int__', '__invert__', '__init_subclass__', '__instancecheck__')):
+            continue
+        for fn in fns:
+            if not fn.args.args:
+                continue
+            n_ip += 1
+            me = fn.args.args[0].arg
+            hz2 = _stale_self_read(fn, me)
+            ctx.check('C04.A7', hz2 is None, mt, hz2[2] if hz2 else fn, (f'{qual} assigns {me}.{hz2[1]} and then reads it again while computing {me}.{hz2[0]}: an in-place operator must compute every component '
+                      'from the values the object had before the operation (x @= A would differ from x @ A)') if hz2 else 'components computed from the old values', func=qual, text=f'{qual}: no stale component read')
+    if n_ip < 3:
+        raise AnalysisError(f'A7: only {n_ip} in-place operator methods found in math.py')
+    for k in ('MatrixBase._mat_mul', 'MatrixBase._vec_rot'):
+        if k not in hazards:
+            ctx.check('C04.A7', True, mt, mt.func(k), 'kernel computes before it assigns (alias safe)', func=k, text=f'{k} alias safe')
+    if n_fn < 40:
+        raise AnalysisError(f'A7: only {n_fn} multi-parameter functions scanned in math.py')
+    # Cython: mat_mul(targ, rot) works row by row in place; a call with the object's own storage and a parameter's storage can alias
+    k = pyx.func('mat_mul')
+    w_lines = [i for i, ln in enumerate(k.body) if re.match(r'targ\s*\[', ln.text) and '=' in ln.text]
+    r_lines = [i for i, ln in enumerate(k.body) if 'rot[' in ln.text.replace(' ', '')]
+    in_loop = any(ln.text.startswith('for ') for ln in k.body)
+    kernel_unsafe = bool(w_lines and r_lines and (max(r_lines) > min(w_lines) or in_loop)) and not any('memcpy' in ln.text and 'rot' in ln.text for ln in k.body)
+    n_calls = 0
+    for q, f in pyx.funcs.items():
+        hdr = f.header.text
+        fparams = [x.strip().split()[-1].split('=')[0].strip('*& ') for x in hdr[hdr.find('(') + 1:hdr.rfind(')')].split(',') if x.strip()]
+        for ln in f.body:
+            m = re.search(r'\bmat_mul\(\s*([^,]+),\s*(.+)\)\s*$', ln.text)
+            if not m or q == 'mat_mul':
+                continue
+            n_calls += 1
+            a, b = m.group(1).strip(), m.group(2).strip()
+            own = re.fullmatch(r'self\.mat', a) is not None
+            pm = re.fullmatch(r'\(\s*<\s*\w+\s*>\s*(\w+)\s*\)\.mat', b)
+            may_alias = own and pm is not None and pm.group(1) in fparams
+            ctx.check('C04.A7', not (kernel_unsafe and may_alias), None, type('PyxLine', (), {'lineno': ln.lineno})(), f'{q} calls mat_mul({a}, {b}): the kernel updates its first argument row by row while reading the second, and here both can be the '
+                      'same matrix (m @= m)', file=pyx.relpath, func=q, text=f'{q}: mat_mul({a}, {b})')
+    if n_calls < 8:
+        raise AnalysisError(f'A7: only {n_calls} mat_mul call sites found in _math.pyx')
+
+
 def analyse_to_angle(ctx: Any, rule: str, relpath: str, qual: str, body: List[ast.stmt], rename: Any, FA: Dict[str, Poly],
                      fields: Dict[str, str], mod: Any, node: Any) -> Dict[str, Any]:
     """Checks the atan2 argument pairs of a matrix->angle function; returns a comparable summary."""
@@ -452,6 +690,9 @@ def analyse_to_angle(ctx: Any, rule: str, relpath: str, qual: str, body: List[as
 
 
 MUTANTS = [
+    {'id': 'inverse_first_nonzero_pivot', 'file': 'math.py', 'find': "                va: float = abs(mat_l[m][n])\n\n                if va > la:\n                    pivrow = m\n                    la = va\n", 'replace': "                if mat_l[m][n] != 0.0:\n                    pivrow = m\n                    break\n", 'expect': 'C04.A8'},
+    {'id': 'mat_mul_rowwise_again', 'file': 'math.py', 'find': "        (\n            self._aa, self._ab, self._ac,\n            self._ba, self._bb, self._bc,\n            self._ca, self._cb, self._cc,\n        ) = (\n            self._aa * other._aa + self._ab * other._ba + self._ac * other._ca,\n            self._aa * other._ab + self._ab * other._bb + self._ac * other._cb,\n            self._aa * other._ac + self._ab * other._bc + self._ac * other._cc,\n", 'replace': "        self._aa, self._ab, self._ac = (\n            self._aa * other._aa + self._ab * other._ba + self._ac * other._ca,\n            self._aa * other._ab + self._ab * other._bb + self._ac * other._cb,\n            self._aa * other._ac + self._ab * other._bc + self._ac * other._cc,\n        )\n        (\n            self._ba, self._bb, self._bc,\n            self._ca, self._cb, self._cc,\n        ) = (\n", 'expect': 'C04.A7'},
+    {'id': 'cython_imatmul_copies_operand', 'file': '_math.pyx', 'find': "        if mat_check(other):\n            mat_mul(self.mat, (<MatrixBase>other).mat)\n            return self", 'replace': "        if mat_check(other):\n            memcpy(temp, (<MatrixBase>other).mat, sizeof(mat_t))\n            mat_mul(self.mat, temp)\n            return self", 'expect': None, 'repairs': ['Matrix.__imatmul__']},
     {'id': 'from_angle_sign', 'file': 'math.py', 'find': "        rot._ba = sin_p * sin_r_cos_y - cos_r_sin_y", 'replace': "        rot._ba = sin_p * sin_r_cos_y + cos_r_sin_y", 'expect': 'C04.A1'},
     {'id': 'from_yaw_transposed', 'file': 'math.py', 'find': "        rot._aa, rot._ab, rot._ac = cos, sin, 0.0\n        rot._ba, rot._bb, rot._bc = -sin, cos, 0.0", 'replace': "        rot._aa, rot._ab, rot._ac = cos, -sin, 0.0\n        rot._ba, rot._bb, rot._bc = sin, cos, 0.0", 'expect': 'C04.A1'},
     {'id': 'axis_angle_term', 'file': 'math.py', 'find': "        mat._bc = y*z * icos - x*sin", 'replace': "        mat._bc = y*z * icos + x*sin", 'expect': 'C04.A2'},
